@@ -138,13 +138,22 @@ def finish_sym(res, specs, built, dagfiles, results, opts):
                 if r['lemmas_ok'] != r['lemmas']:
                     res.undecided.append('%s path %d: %d step lemmas not discharged %s' % (e.name, p.idx, r['lemmas'] - r['lemmas_ok'], r.get('lemma_fail', [])[:3]))
                 if r['feasible'] is False:
-                    res.infeasible += 1; continue
+                    res.infeasible += 1
+                    if ('noraise' in p.notes and p.outcome.startswith('raise')) or ('mustraise' in p.notes and p.outcome == 'ret'):
+                        res.obligations += 1; res.discharged += 1   # the forbidden outcome is proved unreachable
+                    continue
                 if r['feasible'] is None:
                     res.undecided.append('%s path %d: feasibility unknown' % (e.name, p.idx))
                 res.obligations += r['side']; res.discharged += r['side_ok']
                 if r['side_ok'] != r['side']:
                     res.undecided.append('%s path %d: side obligations %s' % (e.name, p.idx, r.get('side_fail')))
                 approx = r.get('eps_switch', False)
+                bad_outcome = ('noraise' in p.notes and p.outcome.startswith('raise')) or ('mustraise' in p.notes and p.outcome == 'ret')
+                if bad_outcome:
+                    res.obligations += 1
+                    outcome_violation(res, s, e, p, r, dbin, known)
+                elif ('noraise' in p.notes or 'mustraise' in p.notes):
+                    pass
                 cand = []
                 for name, st in r['claims'].items():
                     res.claims += 1; res.obligations += 1
@@ -160,6 +169,34 @@ def finish_sym(res, specs, built, dagfiles, results, opts):
             cp = cvals.get(e.name)
             if cp is not None and e.paths:
                 validate(res, e, cp)
+
+def outcome_violation(res, s, e, p, r, dbin, known):
+    """A path whose outcome contradicts the entry's declaration (noraise / mustraise) is feasible: confirm on the real build."""
+    key = '%s:p%d:outcome=%s' % (e.name, p.idx, p.outcome.split(':')[-1])
+    m = r.get('feas_model')
+    if not m:
+        res.undecided.append('%s: path feasibility %s, no model' % (key, r.get('feasible'))); return
+    asgs = prove.complete_model(e, p, m) or [m]
+    asg = asgs[0]
+    rundir = os.path.join(build.WORK, 'run', res.pid)
+    inp = os.path.join(rundir, 'replay_input_o.txt')
+    with open(inp, 'w') as f:
+        for k, v in asg.items(): f.write('%s:%s %s\n' % (e.name, e.nodes[k].name, float(v).hex()))
+    out = os.path.join(rundir, 'replay_out_o.txt')
+    if not dbin:
+        res.undecided.append('%s: no replay binary' % key); return
+    rc, txt = build.run_harness(dbin, out, [re_escape(e.name), '--input', inp])
+    got = None
+    for ce in dagm.load(out):
+        if ce.name == e.name and ce.paths: got = ce.paths[0].outcome
+    if got is None or got.split(':')[0] != p.outcome.split(':')[0]:
+        res.undecided.append('%s: outcome not reproduced on the real build (got %s)' % (key, got)); return
+    kf = match_known(known, key)
+    if kf: res.known.append((key, kf.get('what', ''))); return
+    d = os.path.join(VERIF, 'replay', res.pid); os.makedirs(d, exist_ok=True)
+    fn = os.path.join(d, key.replace(':', '__').replace('=', '-') + '.json')
+    json.dump({'property': res.pid, 'key': key, 'entry': e.name, 'path': p.idx, 'claim': 'outcome', 'inputs': {e.nodes[k].name: float(v) for k, v in asg.items()}, 'observed_outcome': got, 'declared': [k for k in ('noraise', 'mustraise') if k in p.notes], 'replay': {'binary': dbin}}, open(fn, 'w'), indent=1)
+    res.violations.append((key, fn))
 
 def validate(res, e, cp):
     import math
